@@ -217,7 +217,7 @@ func c03Generated(e *env, base string) error {
 	}
 	nRandom, perBatch := 2, 300
 	if e.thorough {
-		nRandom, perBatch = 12, 500
+		nRandom, perBatch = 12*e.scale, 500
 	}
 	for b := 0; b < nRandom; b++ {
 		if err := mk("random", func(g *tygen.Gen, add func(s, t tygen.T, settings bool)) {
